@@ -124,6 +124,7 @@ mod meta;
 mod node;
 mod page;
 mod page_node;
+mod sync;
 mod tx;
 
 pub use bucket::Bucket;
